@@ -419,10 +419,10 @@ theorem issueMissing_inv {s : State} (h : OriginInv s) (r : ReqId) (k : KeyId) (
   unfold issueMissing
   simp only []
   -- the checkout is installed last, so the waiter entry for `r` is justified by it: build in another order
-  have key : ∀ (chk : Checkout) (conn : List Token), chk.key = k → chk.token = t → chk.conn = none →
+  have key : ∀ (chk : Checkout) (conn : List Token) (att : Nat) (own : Token → Nat), chk.key = k → chk.token = t → chk.conn = none →
       OriginInv { s with waiting := upd s.waiting t (s.waiting t ++ [r]), chan := upd s.chan r .empty,
-                         connecting := conn, co := upd s.co r (some chk) } := by
-    intro chk conn hck hct hcc
+                         connecting := conn, attempts := att, owner := own, co := upd s.co r (some chk) } := by
+    intro chk conn att own hck hct hcc
     have h1 : OriginInv { s with co := upd s.co r (some chk) } :=
       h.newCo r chk hr (by rw [hck, hct]; exact hk) (fun c hc => by rw [hcc] at hc; cases hc)
     have h2 : OriginInv { s with co := upd s.co r (some chk), chan := upd s.chan r .empty } :=
@@ -438,8 +438,8 @@ theorem issueMissing_inv {s : State} (h : OriginInv s) (r : ReqId) (k : KeyId) (
       · exact ⟨chk, by simp, hct⟩)
     exact h3.congr rfl rfl rfl rfl rfl rfl rfl rfl rfl rfl
   split
-  · exact key _ _ rfl rfl rfl
-  · split <;> exact key _ _ rfl rfl rfl
+  · exact key _ _ _ _ rfl rfl rfl
+  · split <;> exact key _ _ _ _ rfl rfl rfl
 
 end Hd.Pool
 
